@@ -107,7 +107,7 @@ fn truncate(s: &str, n: usize) -> String {
     }
 }
 
-fn c15_run_one(batch_seed: u64, run_index: u64, out: &mut WorkerOut) {
+fn c15_run_one(batch_seed: u64, run_index: u64, out: &mut WorkerOut) -> bool {
     let seed = run_seed(batch_seed, run_index);
     let mut work = stream(seed, STREAM_WORKLOAD);
     let w = c15::gen_workload(&mut work);
@@ -117,13 +117,17 @@ fn c15_run_one(batch_seed: u64, run_index: u64, out: &mut WorkerOut) {
         Err(_) => {
             out.stats.inc("parse_rejected");
             out.runs += 1;
-            return;
+            return true;
         },
     };
     out.runs += 1;
     let r = &outcome.report;
     if r.watchdog {
-        harness_error("thread blocked outside the simulator (watchdog): inconclusive");
+        // a simulated thread blocked on a primitive the simulator does not own (a std lock held
+        // by a parked thread): this engine cannot decide the run; stop this worker, the parent
+        // reports it and the Miri engine (which owns std locks) decides
+        out.stats.inc("inconclusive.blocked_outside_simulator");
+        return false;
     }
     out.stats.inc("simulations");
     out.stats.add("sched.steps", r.steps);
@@ -133,6 +137,19 @@ fn c15_run_one(batch_seed: u64, run_index: u64, out: &mut WorkerOut) {
     out.stats.inc(&format!("threads.{}", w.threads.len()));
     if r.preemptions > 0 {
         out.stats.inc("simulations_with_overlapping_evaluations");
+    }
+    let max_depth = w.trees.iter().map(|t| t.depth()).max().unwrap_or(0);
+    out.stats.inc(if max_depth >= 150 {
+        "tree_depth.150plus"
+    } else if max_depth >= 60 {
+        "tree_depth.60_149"
+    } else if max_depth >= 20 {
+        "tree_depth.20_59"
+    } else {
+        "tree_depth.lt20"
+    });
+    if w.fresh {
+        out.stats.inc("fresh_shared_objects");
     }
     for i in 0..sched::N_SITES {
         if r.site_hits[i] > 0 {
@@ -175,9 +192,11 @@ fn c15_run_one(batch_seed: u64, run_index: u64, out: &mut WorkerOut) {
         out.violations.push(c15_replay_body(&w, f, &r.choices, &strategy, enabled, batch_seed, run_index, seed));
     }
     out.absorb_digest(run_index, d.finish());
+    // a worker stops early once it has enough violations to report
+    out.violations.len() < 5
 }
 
-fn worker_loop(args: &Args, mut one: impl FnMut(u64, u64, &mut WorkerOut)) {
+fn worker_loop(args: &Args, mut one: impl FnMut(u64, u64, &mut WorkerOut) -> bool) {
     verifsim::env::install_quiet_panic_hook();
     sched::install_hook();
     let batch_seed = args.u64("batch-seed");
@@ -188,7 +207,9 @@ fn worker_loop(args: &Args, mut one: impl FnMut(u64, u64, &mut WorkerOut)) {
     let mut out = WorkerOut::default();
     let mut i = offset;
     while i < runs {
-        one(batch_seed, i, &mut out);
+        if !one(batch_seed, i, &mut out) {
+            break;
+        }
         i += stride;
     }
     out.write(&out_path)
@@ -391,7 +412,7 @@ fn c15_check(tier: &str, exe: &Path, args: &Args) -> i32 {
             stuck.push(format!("site.{}", sched::site_name(i)));
         }
     }
-    for p in ["fault_fired.sched_preempt", "threads.2", "threads.3", "threads.4"] {
+    for p in ["fault_fired.sched_preempt", "threads.2", "threads.3", "threads.4", "threads.8", "tree_depth.150plus", "fresh_shared_objects"] {
         if s.get(p) == 0 {
             stuck.push(p.to_string());
         }
@@ -413,6 +434,8 @@ fn c15_check(tier: &str, exe: &Path, args: &Args) -> i32 {
         .with("simulations_with_overlapping_evaluations", Json::u(s.get("simulations_with_overlapping_evaluations")))
         .with("strategies", s.group("strategy"))
         .with("thread_counts", s.group("threads"))
+        .with("max_tree_depth", s.group("tree_depth"))
+        .with("runs_with_fresh_shared_objects", Json::u(s.get("fresh_shared_objects")))
         .with("thread_operations", s.group("thread_op"))
         .with("hook_sites_hit", s.group("site"))
         .with("send_sync_probe", Json::s(match args.named.get("probe").map(|s| s.as_str()) {
@@ -420,6 +443,7 @@ fn c15_check(tier: &str, exe: &Path, args: &Args) -> i32 {
             _ => "not run by this invocation",
         }))
         .with("miri_engine", miri.unwrap_or_else(|| Json::obj().with("ran", Json::Bool(false))))
+        .with("workers_stopped_blocked_outside_simulator", Json::u(s.get("inconclusive.blocked_outside_simulator")))
         .with("probes_stuck_at_zero", Json::arr_of_str(stuck.iter().cloned()))
         .with("event_log_digest", Json::s(format!("{:016x}", res.out.digest)))
         .with(
@@ -430,7 +454,7 @@ fn c15_check(tier: &str, exe: &Path, args: &Args) -> i32 {
                 .with("absent", Json::arr_of_str(["clock", "network", "disk"])),
         )
         .with("known_findings_matched", Json::u(verdict.known));
-    Evidence {
+    let evidence = Evidence {
         property_id: "C15".to_string(),
         tier: tier.to_string(),
         seed: batch_seed,
@@ -443,8 +467,20 @@ fn c15_check(tier: &str, exe: &Path, args: &Args) -> i32 {
         ],
         wall_s: res.wall_s,
         violations: verdict.new_violations,
+    };
+    match args.named.get("defer-evidence") {
+        // the caller merges the Miri engine's summary in (finish-evidence) before the file is written
+        Some(path) => std::fs::write(path, evidence.to_json().to_pretty())
+            .unwrap_or_else(|e| harness_error(&format!("cannot write deferred evidence: {}", e))),
+        None => evidence.write(),
     }
-    .write();
+    let blocked = s.get("inconclusive.blocked_outside_simulator");
+    if blocked > 0 {
+        println!(
+            "note: {} worker(s) stopped because a simulated thread blocked on a primitive the simulator does not own (a std lock held across a yield point); the hook engine is inconclusive for those runs, the Miri engine decides",
+            blocked
+        );
+    }
     println!(
         "C15 {}: simulations={} scheduler_steps={} preemptions={} distinct_schedules={} wall={:.1}s violations={} known={}",
         tier,
@@ -517,6 +553,33 @@ fn main() {
             std::fs::write(outp, m.to_compact()).unwrap_or_else(|e| harness_error(&e.to_string()));
             0
         },
+        "finish-evidence" => {
+            // finish-evidence <hooks evidence json> <miri summary json>: merge and write C15.json
+            let read = |i: usize| -> Json {
+                let p = args.positional.get(i).unwrap_or_else(|| harness_error("finish-evidence: missing file"));
+                let t = std::fs::read_to_string(p).unwrap_or_else(|e| harness_error(&format!("{}: {}", p, e)));
+                Json::parse(&t).unwrap_or_else(|e| harness_error(&format!("{}: {}", p, e)))
+            };
+            let mut ev = read(0);
+            let miri = read(1);
+            let miri_runs = miri.get("interpreted_runs_ok").and_then(|x| x.as_u64()).unwrap_or(0);
+            let miri_wall = miri.get("wall_s").and_then(|x| x.as_f64()).unwrap_or(0.0);
+            let miri_violation = miri.get("violation").and_then(|x| x.as_bool()).unwrap_or(false);
+            let mut cov = ev.get("coverage").cloned().unwrap_or_else(Json::obj);
+            let evals = cov.get("evaluations").and_then(|x| x.as_u64()).unwrap_or(0);
+            cov.set("evaluations", Json::u(evals + miri_runs));
+            cov.set("hook_engine_simulations", Json::u(evals));
+            cov.set("miri_engine", miri);
+            ev.set("coverage", cov);
+            let wall = ev.get("wall_s").and_then(|x| x.as_f64()).unwrap_or(0.0);
+            ev.set("wall_s", Json::Float(((wall + miri_wall) * 1000.0).round() / 1000.0));
+            if miri_violation {
+                let v = ev.get("violations").and_then(|x| x.as_u64()).unwrap_or(0);
+                ev.set("violations", Json::u(v + 1));
+            }
+            driver::write_evidence_json("C15", &ev);
+            0
+        },
         "miri-scenario" => {
             let seed: u64 = args.positional.first().and_then(|s| s.parse().ok()).unwrap_or(1);
             c15::miri_scenario(seed)
@@ -529,11 +592,11 @@ fn main() {
             let batch_seed = batch_seed_from_env();
             let mut out = WorkerOut::default();
             for i in 0..runs {
-                c15_run_one(batch_seed, i, &mut out);
+                let _ = c15_run_one(batch_seed, i, &mut out);
             }
             let mut out2 = WorkerOut::default();
             for i in 0..runs {
-                c04mt::run_one(batch_seed, i, &mut out2);
+                let _ = c04mt::run_one(batch_seed, i, &mut out2);
             }
             println!("c15={:016x} c04mt={:016x}", out.digest, out2.digest);
             0
